@@ -23,11 +23,24 @@ pub fn drive_interleave(out: &mut dyn std::io::Write, seed: u64, thorough: bool)
         let mut hs: BTreeMap<usize, HSlot> = BTreeMap::new();
         // 2-3 ciphers, 2 hashers to begin with
         let first_variant = *rng.pick(&chacha::VARIANTS);
-        for id in 1..=(2 + rng.below(2) as usize) {
-            // the first two ciphers are of the same type (different keys): shared per-type state would mix them up
-            let v = if id <= 2 { first_variant } else { *rng.pick(&chacha::VARIANTS) };
-            let key = rng.bytes(32);
-            let nonce = rng.bytes(chacha::nonce_len(v));
+        let family: Vec<&str> = chacha::VARIANTS.iter().cloned().filter(|v| chacha::nonce_len(v) == chacha::nonce_len(first_variant)).collect();
+        let shared_key = rng.bytes(32);
+        let shared_nonce = rng.bytes(chacha::nonce_len(first_variant));
+        for id in 1..=(3 + rng.below(2) as usize) {
+            // ciphers 1 and 2: same type, different keys; cipher 3: SAME key and nonce as cipher 1 but another round count of the
+            // same nonce layout (any state shared per key/nonce/position would mix them up); further ones random
+            let (v, key, nonce) = match id {
+                1 => (first_variant, shared_key.clone(), shared_nonce.clone()),
+                2 => (first_variant, rng.bytes(32), rng.bytes(chacha::nonce_len(first_variant))),
+                3 => {
+                    let pos = family.iter().position(|x| *x == first_variant).unwrap();
+                    (family[(pos + 1) % family.len()], shared_key.clone(), shared_nonce.clone())
+                }
+                _ => {
+                    let v = *rng.pick(&chacha::VARIANTS);
+                    (v, rng.bytes(32), rng.bytes(chacha::nonce_len(v)))
+                }
+            };
             k += 1;
             Ev::new(k, "cnew").i("i", id as i64).s("variant", v).bytes("key", &key).bytes("nonce", &nonce).s("res", "ok").emit(out);
             cs.insert(id, chacha::make(v, &key, &nonce));
@@ -63,12 +76,18 @@ pub fn drive_interleave(out: &mut dyn std::io::Write, seed: u64, thorough: bool)
                     }
                     _ => {
                         let n = *rng.pick(&[0usize, 1, 17, 63, 64, 65, 130, 256, 300]);
-                        let before = rng.bytes(n);
-                        let mut buf = before.clone();
-                        let r = guarded(|| c.apply(&mut buf));
-                        let res = match r { Ok(Ok(())) => "ok".to_string(), Ok(Err(())) => "err".to_string(), Err(p) => format!("panic:{}", sanitize(&p)) };
-                        k += 1;
-                        Ev::new(k, "apply").i("i", id as i64).i("n", n as i64).bytes("before", &before).bytes("after", &buf).b("guard", true).s("res", &res).emit(out);
+                        // ciphers 1 and 3 share key and nonce: when one of them is stepped, step the other by the same amount right
+                        // after it (lock-step), so that both ask for the same keystream positions back to back
+                        let ids2: Vec<usize> = if (id == 1 || id == 3) && cs.contains_key(&1) && cs.contains_key(&3) && rng.below(3) != 0 { vec![id, 4 - id] } else { vec![id] };
+                        for id in ids2 {
+                            let c = cs.get_mut(&id).unwrap();
+                            let before = rng.bytes(n);
+                            let mut buf = before.clone();
+                            let r = guarded(|| c.apply(&mut buf));
+                            let res = match r { Ok(Ok(())) => "ok".to_string(), Ok(Err(())) => "err".to_string(), Err(p) => format!("panic:{}", sanitize(&p)) };
+                            k += 1;
+                            Ev::new(k, "apply").i("i", id as i64).i("n", n as i64).bytes("before", &before).bytes("after", &buf).b("guard", true).s("res", &res).emit(out);
+                        }
                     }
                 }
             } else {
